@@ -128,6 +128,11 @@ impl Check for IndexNameTranslation {
                         Ok(i) if i == ins.key => {}
                         other => bad!("instrument-name-to-index", "map of {ex_id}: name {name} translates to {other:?}, expected {}", ins.key),
                     }
+                    // the same name in the other letter case is a different (unlisted) name
+                    let flipped = InstrumentNameExchange::new(if name.name().chars().any(|c| c.is_ascii_uppercase()) { name.name().to_lowercase() } else { name.name().to_uppercase() });
+                    if flipped != *name && !indexed.instruments().iter().any(|o| o.value.exchange.key == ex_idx && o.value.name_exchange == flipped) && map.find_instrument_index(&flipped).is_ok() {
+                        bad!("unlisted-case-variant-translates", "map of {ex_id}: {flipped} is not listed on the exchange (only {name} is) yet translates to {:?}", map.find_instrument_index(&flipped));
+                    }
                 } else {
                     if got.is_ok() {
                         bad!("foreign-instrument-index-translates", "map of {ex_id}: {} belongs to {} yet translates to {:?}", ins.key, ins.value.exchange.value, got);
@@ -251,6 +256,24 @@ impl Check for IndexNameTranslation {
                         instruments: vec![InstrumentAccountSnapshot { instrument: name.clone(), orders: vec![order.clone()] }],
                     }))),
                 ];
+                // a full snapshot in which the client lumps this order under the entry of another
+                // instrument of the exchange: every order is still the order of the instrument it names
+                if let Some(other) = indexed.instruments().iter().find(|o| o.value.exchange.key == ex_idx && o.key != ins.key) {
+                    let lumped = UnindexedAccountEvent::new(ex_id, AccountEventKind::Snapshot(UnindexedAccountSnapshot {
+                        exchange: ex_id,
+                        balances: vec![],
+                        instruments: vec![InstrumentAccountSnapshot { instrument: other.value.name_exchange.clone(), orders: vec![order.clone()] }],
+                    }));
+                    match indexer.account_event(lumped) {
+                        Ok(AccountEvent { kind: AccountEventKind::Snapshot(snap), .. }) => {
+                            let got = snap.instruments.first().map(|g| (g.instrument, g.orders.first().map(|o| o.key.instrument)));
+                            if got != Some((other.key, Some(ins.key))) {
+                                bad!("inbound-lumped-snapshot", "full snapshot listing an order for {name} under the entry of {}: indexed (entry, order) = {got:?}, expected ({}, {})", other.value.name_exchange, other.key, ins.key);
+                            }
+                        }
+                        other_result => bad!("inbound-lumped-snapshot", "full snapshot listing an order for {name} under another instrument's entry: {other_result:?}"),
+                    }
+                }
                 for (what, ev) in events {
                     let indexed_ev: AccountEvent = match indexer.account_event(ev) {
                         Ok(e) => e,
@@ -586,7 +609,7 @@ impl Check for LinkRouting {
 }
 
 pub fn run(ctx: &mut Ctx) {
-    ctx.rule = "index_name_translation: 1..9|14 instrument definitions over 1..4 exchanges (exchange instrument names such as BTCUSDT and asset names deliberately shared between exchanges); for EVERY exchange's map and EVERY global instrument/asset index (own and foreign): index->name, name->index, outbound request translation, inbound translation of order snapshot / rejected order / cancel response / trade / full snapshot / balance, and application to EngineState. non-trivial = >= 2 exchanges and a probed own index lies on an exchange whose first global index is > 0 (global index != per-exchange position); distinct by hash of the case. link_routing: 2..6|10 spot instruments over 2..4 exchanges, a generated subset of the exchanges gets a mock execution link (the rest are data-only); the layer is assembled with ExecutionBuilder and initialised on a paused runtime; every initial account snapshot must carry its own exchange index and asset indices; 1..5 market orders are sent through execution_txs.find(exchange index of the instrument) and the response, fill and balance events must come back with that exchange index / instrument index / spent asset index; a data-only exchange index must not resolve; finally the same orders are sent again all at once (in flight together, different instruments sharing one client order id) and the responses / fills must carry exactly the requests' keys. non-trivial = a request routed while a data-only exchange precedes the traded one in index order.".into();
+    ctx.rule = "index_name_translation: 1..9|14 instrument definitions over 1..4 exchanges (exchange instrument names such as BTCUSDT and asset names deliberately shared between exchanges); for EVERY exchange's map and EVERY global instrument/asset index (own and foreign): index->name, name->index, outbound request translation, inbound translation of order snapshot / rejected order / cancel response / trade / full snapshot (also one that lists the order under another instrument's entry) / balance, a name's other letter case must not translate, and application to EngineState. non-trivial = >= 2 exchanges and a probed own index lies on an exchange whose first global index is > 0 (global index != per-exchange position); distinct by hash of the case. link_routing: 2..6|10 spot instruments over 2..4 exchanges, a generated subset of the exchanges gets a mock execution link (the rest are data-only); the layer is assembled with ExecutionBuilder and initialised on a paused runtime; every initial account snapshot must carry its own exchange index and asset indices; 1..5 market orders are sent through execution_txs.find(exchange index of the instrument) and the response, fill and balance events must come back with that exchange index / instrument index / spent asset index; a data-only exchange index must not resolve; finally the same orders are sent again all at once (in flight together, different instruments sharing one client order id) and the responses / fills must carry exactly the requests' keys. non-trivial = a request routed while a data-only exchange precedes the traded one in index order.".into();
     ctx.assumptions = vec![
         "exchange-side instrument and asset names are unique inside one exchange".into(),
         "unique internal instrument names; one exchange name per (exchange, internal asset name)".into(),
